@@ -188,6 +188,22 @@ def check(ctx):
                             continue
                         r3.bad(V(r3.id, v.id, "dependency-loop-left-early", "the loop over a node's dependencies can be left before the last dependency (edge bb%d -> bb%d on %s): the remaining dependencies are emitted after the node" % (b, succ, v.describe_origin(o, deep=1)[:60]),
                                  v.blocks[b]["term"].get("span", {}).get("file"), v.blocks[b]["term"].get("span", {}).get("line")))
+        # an activation gives up before emitting its node only because the node is finished (visited) or on the stack (visiting): any other
+        # reason to skip — a depth cap, a size test, a name test — leaves a requested type out or emits a dependent before its dependency
+        for p_ in pushes:
+            extra = []
+            for (bb, keep, lose) in v.filter_branches(0, p_.bb):
+                for lab in lose:
+                    o, outcome = v.cond_struct(bb, lab)
+                    if o[0] == "call" and short_path(o[1].best) == "HashSet::contains" and o[1].args and recv_name(v, o[1]) in ("visiting", "visited") and outcome == "true":
+                        continue
+                    extra.append("%s=%s" % (v.describe_origin(o, deep=1)[:60], outcome))
+            if extra:
+                r3.bad(V(r3.id, v.id, "emission-skipped-under:%s" % ";".join(sorted(set(extra)))[:120],
+                         "an activation of topological_visit can return without emitting its node for another reason than visited/visiting membership (%s): on an acyclic graph "
+                         "that node is then missing from the order or placed after a dependent" % "; ".join(sorted(set(extra)))[:160], p_.file, p_.line))
+            else:
+                r3.ok("the node is emitted unless it is visited or on the stack")
         # D2
         if len(pushes) != 1:
             r2.bad(V(r2.id, v.id, "push-sites:%d" % len(pushes), "expected exactly one sorted.push in topological_visit, found %d" % len(pushes)))
@@ -346,6 +362,39 @@ def check(ctx):
                 r5.ok("Ok(result) only when result.len() == nodes.len()")
             else:
                 r5.bad(V(r5.id, k.id, "ok-without-length-test", "Ok(result) is returned without comparing the number of emitted nodes with the node count (guards %s)" % g))
+        # the order Kahn's loop produced is the order returned: the vector wrapped in Ok(..) is the one the dequeue loop pushes to, and nothing but
+        # that push ever borrows it mutably (a later sort / reverse / dedup / swap re-arranges a valid order into one that need not be valid)
+        from unord import Unord
+        base = lambda op: Unord._base_local(None, k, op)
+        res_locals = set()
+        for b in oks:
+            for st in k.blocks[b]["stmts"]:
+                rv = st.get("rv")
+                if rv and st["lhs"]["l"] == 0 and rv["k"] == "aggr" and rv.get("variant") == "Ok" and rv.get("ops"):
+                    res_locals.add(base(rv["ops"][0]))
+        pushed_node = [c for c in k.calls if short_path(c.path) == "Vec::push" and c.args and base(c.args[0]) in res_locals]
+        if not res_locals or not pushed_node:
+            r5.bad(V(r5.id, k.id, "result-provenance", "the vector returned in Ok(..) is not the one the dequeue loop pushes to"))
+        else:
+            other = []
+            for c in k.calls:
+                if c.bb not in k.reach_blocks or c in pushed_node or not c.args:
+                    continue
+                for a_ in c.args:
+                    pl = a_.get("move") or a_.get("copy") if isinstance(a_, dict) else None
+                    if pl is None:
+                        continue
+                    ds = k.defs.get(pl["l"], [])
+                    if len(ds) == 1 and ds[0][0] == "stmt" and ds[0][3]["k"] == "ref" and ds[0][3].get("mut") and base(a_) in res_locals:
+                        other.append(c)
+            # a deref_mut to a slice followed by a slice method is the usual form: report the final callee
+            names = sorted(set(short_path(c.path) for c in other if short_path(c.path) not in ("Vec::push",)))
+            real = [n for n in names if not n.endswith(("deref_mut", "as_mut_slice"))]
+            if names:
+                r5.bad(V(r5.id, k.id, "result-rearranged:%s" % ",".join(real or names), "the computed order is modified after Kahn's loop (%s): a topological order re-arranged by any other key "
+                         "need not be topological" % ", ".join(real or names)))
+            else:
+                r5.ok("the returned vector is only ever pushed to by the dequeue loop")
         if not errs:
             r5.bad(V(r5.id, k.id, "no-cycle-error", "resolve_build_order never returns CircularDependency"))
         else:
